@@ -918,6 +918,21 @@ def protocol_snref_probe(ck):
                          f"inherits from are {['A.' + x for x in bv_par]}", rep)
             return
     ck.coverage["protocol_snref_databases"] = n
+    # the PROTOCOL-SNREF of a COMPARAM-REF: a name which denotes no protocol the layer inherits from (recorded finding)
+    cref = ('<COMPARAM-REFS><COMPARAM-REF ID-REF="CPSUB.CP_Baudrate" DOCREF="CPSUB" DOCTYPE="COMPARAM-SUBSET"><SIMPLE-VALUE>250000</SIMPLE-VALUE>'
+            '<PROTOCOL-SNREF SHORT-NAME="XYZ"/></COMPARAM-REF></COMPARAM-REFS>')
+    doc = (f'<?xml version="1.0" encoding="UTF-8"?><ODX MODEL-VERSION="2.2.0" {xsi}><DIAG-LAYER-CONTAINER ID="A"><SHORT-NAME>A</SHORT-NAME>'
+           f'<PROTOCOLS>{proto("A", "UDS")}</PROTOCOLS><BASE-VARIANTS><BASE-VARIANT ID="A.BV"><SHORT-NAME>BV</SHORT-NAME>{cref}'
+           f'<PARENT-REFS>{pref("A", "UDS", "PROTOCOL")}</PARENT-REFS></BASE-VARIANT></BASE-VARIANTS></DIAG-LAYER-CONTAINER></ODX>')
+    ck.count(("protocol-snref", "comparam-ref"))
+    db, e, _ = cc.guarded(lambda: hc.load_docs([doc, hc.cpsubset_doc(), hc.cpspec_doc()]), timeout=20)
+    if e is None:
+        kf = ck.match_known({"comparam-protocol-snref-unchecked"})
+        if kf:
+            ck.known_finding(kf["id"], kf["what"])
+        else:
+            ck.violation("a COMPARAM-REF whose PROTOCOL-SNREF names no protocol the layer inherits from ('XYZ') is accepted in strict mode",
+                         {"probe": "PROTOCOL-SNREF of a COMPARAM-REF", "document": doc})
 
 
 def corpus():
